@@ -94,9 +94,10 @@ Inductive case :=
 
 Definition sorted_eqb (a b : list Z) : bool := list_eqb Z.eqb (ZSort.sort a) (ZSort.sort b).
 
-Definition summ_agrees (scale : Z) (exact : bool) (s : summ) (i : isumm) : bool :=
+(* numeric: the aggregation is over field values (for count/unique Min and Max are never written) *)
+Definition summ_agrees (scale : Z) (exact numeric : bool) (s : summ) (i : isumm) : bool :=
   (i_total i =? Z.of_N (s_total s)) && (i_ne i =? Z.of_N (s_ne s)) &&
-  if (s_total s =? 0)%N then
+  if (s_total s =? 0)%N || negb numeric then
     match i_samples i with [] => units_is scale (i_sum i) 0 | _ => false end
   else
     units_is scale (i_min i) (s_min s) && units_is scale (i_max i) (s_max s) &&
@@ -136,7 +137,7 @@ Definition agg_agrees (scale : Z) (exact : bool) (t : mtree) (q : query) (o : io
   let info (name mid : N) := or_new (lookup (mid, name) (a_bins a)) in
   (length (o_bins o) =? length (a_bins a))%nat &&
   forallb (fun ki => match lookup (fst ki) (a_bins a) with
-                     | Some s => summ_agrees scale exact s (snd ki)
+                     | Some s => summ_agrees scale exact (is_field_func (q_func q)) s (snd ki)
                      | None => false
                      end) (o_bins o) &&
   (o_ne o =? Z.of_N (a_ne a)) && (o_bne o =? Z.of_N bne) &&
